@@ -197,7 +197,18 @@ fn flip_hex_char(c: char) -> char {
 
 fn mutate_text(rng: &mut StdRng, s: &str) -> (String, String) {
     let chars: Vec<char> = s.chars().collect();
-    match rng.gen_range(0..13) {
+    match rng.gen_range(0..15) {
+        13 | 14 => {
+            // a character that is no hex digit but whose low byte is one (U+0131 for `1`, U+0161 for `a`, ...)
+            let hexpos: Vec<usize> = chars.iter().enumerate().filter(|(i, c)| c.is_ascii_hexdigit() && *i > s.find('/').unwrap_or(0)).map(|(i, _)| i).collect();
+            if hexpos.is_empty() {
+                return (format!("{s}\u{131}"), "append look-alike".into());
+            }
+            let i = *pick(rng, &hexpos);
+            let mut c = chars.clone();
+            c[i] = char::from_u32(0x100 + c[i] as u32).unwrap();
+            (c.iter().collect(), format!("look-alike of the hex digit at {i}"))
+        }
         0 => (chars[..chars.len() - 1].iter().collect(), "drop last char".into()),
         1 => (chars[..chars.len() - 2].iter().collect(), "drop last byte".into()),
         2 => (format!("{s}0"), "append 0".into()),
